@@ -169,9 +169,60 @@ func (s *service) Invoke(_ context.Context, method string, in, out protoref.Mess
 		return nil
 	default:
 		seed := h64(s.salt, "root", method, canon(in))
-		s.fill(out, seed, 0)
+		s.fillRoot(out, seed, rootLenMarker(in, 0))
 		return nil
 	}
+}
+
+// rootLenMarker lets a request decide how long the lists directly in the
+// answer to a root field are (histories need an empty / a longer root result):
+// a string argument starting with "len0" / "len3" or an integer argument 9000 /
+// 9003 anywhere in the request forces 0 / 3 elements (and, for 0, a nullable
+// root object to be absent). -1 = no marker (the canonical values have none).
+func rootLenMarker(m protoref.Message, depth int) int {
+	if depth > 6 {
+		return -1
+	}
+	found := -1
+	m.Range(func(fd protoref.FieldDescriptor, v protoref.Value) bool {
+		one := func(v protoref.Value) {
+			switch fd.Kind() {
+			case protoref.StringKind:
+				if s := v.String(); strings.HasPrefix(s, "len0") {
+					found = 0
+				} else if strings.HasPrefix(s, "len3") {
+					found = 3
+				}
+			case protoref.Int32Kind, protoref.Int64Kind:
+				if n := v.Int(); n == 9000 {
+					found = 0
+				} else if n == 9003 {
+					found = 3
+				}
+			case protoref.MessageKind:
+				if r := rootLenMarker(v.Message(), depth+1); r >= 0 {
+					found = r
+				}
+			}
+		}
+		switch {
+		case fd.IsMap():
+		case fd.IsList():
+			l := v.List()
+			for i := 0; i < l.Len(); i++ {
+				one(l.Get(i))
+			}
+		default:
+			one(v)
+		}
+		return found < 0
+	})
+	return found
+}
+
+// fillRoot fills the answer to a root field; force >= 0 fixes the length of the lists directly in it.
+func (s *service) fillRoot(msg protoref.Message, seed uint64, force int) {
+	s.fillMsg(msg, seed, 0, force)
 }
 
 func isWrapperScalar(d protoref.MessageDescriptor) bool {
@@ -197,6 +248,10 @@ func isListWrapper(d protoref.MessageDescriptor) bool {
 
 // fill populates msg. depth counts nested (non wrapper) messages below the RPC response.
 func (s *service) fill(msg protoref.Message, seed uint64, depth int) {
+	s.fillMsg(msg, seed, depth, -1)
+}
+
+func (s *service) fillMsg(msg protoref.Message, seed uint64, depth int, force int) {
 	d := msg.Descriptor()
 	name := shortName(d)
 	// real oneofs: choose one arm
@@ -207,7 +262,7 @@ func (s *service) fill(msg protoref.Message, seed uint64, depth int) {
 			continue
 		}
 		arm := o.Fields().Get(int(h64(seed, "oneof", string(o.Name())) % uint64(o.Fields().Len())))
-		s.fillField(msg, name, arm, h64(seed, int(arm.Number())), depth, nil)
+		s.fillField(msg, name, arm, h64(seed, int(arm.Number())), depth, nil, -1)
 	}
 	fs := d.Fields()
 	for i := 0; i < fs.Len(); i++ {
@@ -215,7 +270,7 @@ func (s *service) fill(msg protoref.Message, seed uint64, depth int) {
 		if o := fd.ContainingOneof(); o != nil && !o.IsSynthetic() {
 			continue
 		}
-		s.fillField(msg, name, fd, h64(seed, int(fd.Number())), depth, s.gqlType[name+"."+string(fd.Name())])
+		s.fillField(msg, name, fd, h64(seed, int(fd.Number())), depth, s.gqlType[name+"."+string(fd.Name())], force)
 	}
 }
 
@@ -228,12 +283,15 @@ func (s *service) listLen(h uint64, depth int) int {
 
 func nullable(t *gast.Type) bool { return t != nil && !t.NonNull }
 
-func (s *service) fillField(msg protoref.Message, msgName string, fd protoref.FieldDescriptor, h uint64, depth int, gt *gast.Type) {
+func (s *service) fillField(msg protoref.Message, msgName string, fd protoref.FieldDescriptor, h uint64, depth int, gt *gast.Type, force int) {
 	switch {
 	case fd.IsMap():
 		return
 	case fd.IsList():
 		n := s.listLen(h, depth)
+		if depth == 0 && force >= 0 {
+			n = force
+		}
 		l := msg.Mutable(fd).List()
 		for i := 0; i < n; i++ {
 			eh := h64(h, "el", i)
@@ -269,6 +327,9 @@ func (s *service) fillField(msg protoref.Message, msgName string, fd protoref.Fi
 			// nullable object: absent one time in four; the answer to a root field itself
 			// is always there in odd universes (otherwise everything below stays unobserved)
 			if nullable(gt) && h64(h, "present")%4 == 0 && !(depth == 0 && s.salt%2 == 1) {
+				return
+			}
+			if nullable(gt) && depth == 0 && force == 0 {
 				return
 			}
 			if gt == nil && fd.ContainingOneof() == nil {
